@@ -577,12 +577,22 @@ def mapSemGranted (p : Pool) (m : Nat) (r : Req) : Pool :=
   let q := (p.modReq m fun x => { x with acquired := true, frame := .running }).mapStartTask m
   if q.2 then mapLoop m r.items q.1 else q.1
 
+/-- the spawner wakes up inside `acquire()` of the call's own semaphore (CPython 3.12.1): its waiter entry is removed;
+cancelled while the slot had already been granted: `_value += 1; _wake_up_next()`; granted: `if _value > 0:
+_wake_up_next()` — both still inside `acquire()`, before `_arg_consumer` runs on -/
 def wakeWaitMapSem (p : Pool) (m : Nat) (r : Req) : Pool :=
   let rw := removeWaiterL m r.mapSem.waiters
-  let p := p.modReq m fun x => { x with mapSem := { x.mapSem with waiters := rw.2 }, mustCancel := false }
-  if rw.1 == some .cancelled || r.mustCancel then
-    (if rw.1 == some .granted then p.releaseMap m else p).finishMeta m .ok
-  else if rw.1 == some .granted then p.mapSemGranted m r
+  let s1 : Sem := { r.mapSem with waiters := rw.2 }
+  let cancelled := rw.1 == some .cancelled || r.mustCancel
+  let granted := rw.1 == some .granted
+  let s2 : Sem × Option Nat :=
+    if granted then
+      if cancelled then s1.release
+      else if !s1.value.isZero then s1.wakeNext else (s1, none)
+    else (s1, none)
+  let p := (p.modReq m fun x => { x with mapSem := s2.1, mustCancel := false }).schedOpt s2.2
+  if cancelled then p.finishMeta m .ok
+  else if granted then p.mapSemGranted m r
   else p
 
 def stepMeta (p : Pool) (m : Nat) : Pool :=
